@@ -48,7 +48,8 @@ class UnitRun:
     def __init__(self, name):
         self.name = name
         self.errors = []       # mapped semantic failures
-        self.tool_errors = []  # anything else (type errors, rlimit, ...): undecided
+        self.tool_errors = []  # anything else (type errors, ...): undecided
+        self.rlimit_errors = []  # a function whose query exceeded the solver budget: that function is undecided
         self.functions = []
         self.text = ""
         self.regions = []
@@ -201,6 +202,11 @@ def run_unit(name, extra_args=(), variant=None, mutate_text=None, rlimit=None, s
         prim = [s for s in spans if s.get("is_primary")]
         sec = [s for s in spans if not s.get("is_primary")]
         rendered = d.get("rendered", msg)
+        if "Resource limit (rlimit) exceeded" in msg:
+            # one function's query ran out of solver budget: that function is not decided, the others are
+            ur.rlimit_errors.append({"message": msg, "rendered": rendered,
+                                     "fn": fn_at(tb, fn_index, prim[0]["byte_start"]) if prim else "?"})
+            continue
         if kind is None or not prim:
             ur.tool_errors.append({"message": msg, "rendered": rendered})
             continue
